@@ -3,6 +3,8 @@ package main
 // Translation of contract expressions to SMT terms.
 
 import (
+	"os"
+	"runtime/debug"
 	"fmt"
 	"go/token"
 	"go/types"
@@ -46,6 +48,9 @@ func (e *Env) with(name string, t Term) *Env {
 }
 
 func (fv *FV) sfail(format string, args ...interface{}) {
+	if os.Getenv("GOVC_TRACE") != "" {
+		debug.PrintStack()
+	}
 	panic(unsupported{"spec: " + fmt.Sprintf(format, args...)})
 }
 
@@ -661,6 +666,9 @@ func (fv *FV) fieldTerm(st *State, v Term, name string) Term {
 	if v.T == nil {
 		fv.sfail("field %s of untyped term %s", name, v.S)
 	}
+	if isUserByRef(v.T) {
+		v.T = types.NewPointer(v.T) // a struct held by reference
+	}
 	t := v.T
 	if tp, ok := t.(*types.TypeParam); ok {
 		_ = tp
@@ -896,6 +904,18 @@ func (fv *FV) sliceTerm(a, lo, hi, max Term) Term {
 }
 
 func (fv *FV) specQuant(env *Env, q *SQuant) Term {
+	if q.Lambda {
+		// lambda k int :: e — a new ghost map defined pointwise (such a map exists, so the definition is sound)
+		if len(q.Vars) != 1 || env.qdepth != 0 {
+			fv.sfail("lambda takes one variable and cannot be nested in a quantifier")
+		}
+		e2, binders := fv.bindQuant(env, q)
+		body := fv.spec(e2, q.Body)
+		a := fv.fresh("lam", arr(sInt, body.Sort))
+		k := fmt.Sprintf("%s?q%d", q.Vars[0].Name, env.qdepth+1)
+		fv.define(env.st, fmt.Sprintf("(forall (%s) (! (= (select %s %s) %s) :pattern ((select %s %s))))", binders, a, k, body.S, a, k))
+		return Term{S: a, Sort: arr(sInt, body.Sort), T: &specType{sort: arr(sInt, body.Sort), elem: body.T}}
+	}
 	e2, binders := fv.bindQuant(env, q)
 	body := fv.specBool(e2, q.Body)
 	pats := fv.quantPatterns(e2, q)
